@@ -201,8 +201,10 @@ func (e *Engine) VerifyFunc(name string) (*UnitResult, error) {
 	e.iptrs = map[string]*Ptr{}
 	u := e.NewUnit(fn, fs)
 	u.findLoops(fn)
+	u.numberLoopsWithHelpers(fn)
 	st := &State{cells: map[*Cell]Value{}, heaps: map[string]T{}, cnt: map[string]T{}, lastArgs: map[string][]Value{}, lastRes: map[string]Value{}, calleeGhosts: map[string]map[string]T{}, ctxDone: map[string]T{}, tokens: map[string]int{}, marks: map[string]*Snapshot{}}
 	st.epoch = e.nextEpoch()
+	u.entryEpoch = st.epoch
 	// ghost axioms from the spec files
 	u.declareSpecPrelude()
 	// parameters
@@ -745,4 +747,73 @@ func (e *Engine) dirRel() string {
 		return r
 	}
 	return e.dir
+}
+
+
+// numberLoopsWithHelpers numbers the loops of fn together with the loops of the helpers fn calls
+// directly that have no contract of their own (they are verified inlined): a helper's loops take
+// their place at the position of the call, as if the helper's body stood there.  A loop that is
+// extracted into such a helper therefore keeps its number, and the `loop K` clauses of fn's contract
+// keep applying to it (evaluated in the helper's frame).
+func (u *Unit) numberLoopsWithHelpers(fn *ssa.Function) {
+	type item struct {
+		pos, sub int
+		h        *ssa.BasicBlock
+	}
+	var items []item
+	for h, lp := range u.loops {
+		if lp.fn == fn {
+			items = append(items, item{blockPos(h), 0, h})
+		}
+	}
+	helperLoops := false
+	seen := map[*ssa.Function]bool{}
+	for _, b := range fn.Blocks {
+		for _, in := range b.Instrs {
+			call, ok := in.(*ssa.Call)
+			if !ok {
+				continue
+			}
+			callee := call.Call.StaticCallee()
+			if callee == nil || call.Call.IsInvoke() {
+				continue
+			}
+			target := callee
+			if o := callee.Origin(); o != nil {
+				target = o
+			}
+			if target == fn || seen[target] || target.Pkg != u.pkg || len(target.Blocks) == 0 || target.Parent() != nil {
+				continue
+			}
+			if u.eng.spec.Funcs[relName(callee)] != nil || u.eng.spec.Funcs[relName(target)] != nil {
+				continue
+			}
+			seen[target] = true
+			u.findLoops(target)
+			var hs []*ssa.BasicBlock
+			for h, lp := range u.loops {
+				if lp.fn == target {
+					hs = append(hs, h)
+				}
+			}
+			sort.Slice(hs, func(i, j int) bool { return u.loops[hs[i]].index < u.loops[hs[j]].index })
+			for k, h := range hs {
+				helperLoops = true
+				items = append(items, item{int(call.Pos()), k + 1, h})
+				u.loops[h].inherited = true
+			}
+		}
+	}
+	if !helperLoops {
+		return
+	}
+	sort.Slice(items, func(i, j int) bool {
+		if items[i].pos != items[j].pos {
+			return items[i].pos < items[j].pos
+		}
+		return items[i].sub < items[j].sub
+	})
+	for i, it := range items {
+		u.loops[it.h].index = i + 1
+	}
 }
